@@ -87,7 +87,29 @@ def nl_lemmas(cache):
             out.append(z3.Implies(z3.And(b < zero, a >= b), e <= one)); out.append(z3.Implies(z3.And(b < zero, a <= -b), e >= -one))
             out.append(z3.Implies(z3.And(b > zero, a >= b), e >= one)); out.append(z3.Implies(z3.And(b < zero, a <= b), e >= one))
     for v in list(cache.values()): visit(v)
+    if SCALE_HINTS:
+        divs = []
+        seen2 = set()
+        def collect(e):
+            k = e.get_id()
+            if k in seen2: return
+            seen2.add(k)
+            if z3.is_app(e):
+                for c in e.children(): collect(c)
+                if e.decl().eq(_fdiv): divs.append(e)
+        for v in list(cache.values()): collect(v)
+        if len(divs) <= 60:
+            for i, f1 in enumerate(divs):
+                for f2 in divs[i + 1:]:
+                    a1, b1 = f1.children(); a2, b2 = f2.children()
+                    for c in SCALE_HINTS:
+                        cc = z3.Q(c.numerator, c.denominator)
+                        out.append(z3.Implies(z3.And(a2 == cc * a1, b2 == cc * b1, b1 != zero), f2 == f1))
+                        out.append(z3.Implies(z3.And(a1 == cc * a2, b1 == cc * b2, b2 != zero), f2 == f1))
     return out
+
+
+SCALE_HINTS = []
 
 
 class Stats:
